@@ -26,9 +26,10 @@ def scenarios(tier):
                           unwind_map=UM, max_recursion=140, cover=[1, 2]))
     # exclusivity: two erasures through one iterator vs a writer inserting into the same bucket (the writer spins on the bucket lock:
     # executions with more than U spins inside one window are outside the bound)
-    s.append(Scenario('mt-iter-erase5-erase4-vs-emplace6-K2', SRC, BASE + ['MODE=4', 'WK=5'], threads=2, K=2, unwind=6, unwind_map=UM, max_recursion=140,
-                      cover=[1, 2], allow_unwound=True))
+    # (thorough tier: 5-15 min per scenario)
     if tier == 'thorough':
+        s.append(Scenario('mt-iter-erase5-erase4-vs-emplace6-K2', SRC, BASE + ['MODE=4', 'WK=5'], threads=2, K=2, unwind=6, unwind_map=UM, max_recursion=140,
+                          cover=[1, 2], allow_unwound=True))
         s.append(Scenario('mt-iter-erase5-erase4-vs-emplace6-K3', SRC, BASE + ['MODE=4', 'WK=5'], threads=2, K=3, unwind=6, unwind_map=UM, max_recursion=140,
                           cover=[1, 2], allow_unwound=True))
         s.append(Scenario('mt-iter-erase2-erase-vs-emplace6-K2', SRC, BASE + ['MODE=4', 'WK=2'], threads=2, K=2, unwind=6, unwind_map=UM, max_recursion=140,
